@@ -14,6 +14,20 @@ def run(chk, mode="three"):
     tier = chk.tier
     per_prog = 6 if tier == "quick" else 14
     jobs = progs.jobs(tier, chk.seed, per_prog=per_prog)
+    # specification -> implementation: programs enumerated by TLC from the specification's typing relation
+    # (spec/ProgGen.tla: every bit-typed program of <= 4 nodes over Add/Subtract/Multiply/Sum/Zeros/Ones), a seeded sample
+    # of them with owner / output / inlining configurations
+    import random
+    from . import proggen
+    gen = proggen.enumerate_programs(chk, "bit", 4)
+    grng = random.Random(chk.seed + 4242)
+    jid = max(j["id"] for j in jobs)
+    for name, pr, _tys in grng.sample(gen, min(len(gen), 120 if tier == "quick" else 3000)):
+        nin = sum(1 for nd_ in pr["graphs"][0]["nodes"] if nd_["op"] == "Input")
+        for ow, outs, md in grng.sample(progs.configs(nin, "quick", grng, 6), 2 if tier == "quick" else 3):
+            jid += 1
+            jobs.append({"id": jid, "name": name, "cls": "bit", "prog": pr, "owners": ow, "outs": outs, "mode": md})
+    chk.note("programs_enumerated_from_the_specification", len(gen))
     recs, failed = mc.compile_jobs(chk, jobs)
     chk.note("programs_compiled", len(recs))
     chk.note("compile_failures", failed[:20])
@@ -61,6 +75,45 @@ def run(chk, mode="three"):
                                 "x": mc.last_state(res.trace, "x"), "oracle": mc.last_state(res.trace, "orc"),
                                 "tlc": res.trace[-6000:], "mode": mode, "ring": ring})
             rs = [r for r in rs if r is not bad]
+    # --- programs ending in Truncate (the result is not a function of the inputs): the outcome condition of C05 plus
+    # agreement of the output parties / of the two holders of every share (C02Trunc), on one store C01Trunc
+    from . import c05
+    tj, _ = c05.jobs(tier)
+    keep = []
+    for j in tj:
+        if j.get("pair"):
+            continue
+        # every scale once per (type, owner/output configuration); quick: scales 4 and 5 only
+        if tier == "quick" and not any(("_%d_" % sc) in j["name"] for sc in (4, 5, 32)):
+            continue
+        keep.append(j)
+    # output configurations that C05's own list does not contain: revealed to party 0, to party 2, to all
+    extra, jid = [], 10000
+    for st, scale in (("i8", 4), ("u8", 8), ("i8", 5)):
+        for ow, outs, md in (([1], [0], "Simple"), ([0], [2], "Default"), ([2], [1, 0], "Simple"), ([1], [0, 1, 2], "Extreme")):
+            jid += 1
+            extra.append({"id": jid, "name": "trunc_%s_%d_s" % (st, scale), "cls": "x8",
+                          "prog": progs.prog([progs.inp(progs.S(st)), progs.nd("Truncate", [1], scale_s=str(scale))]),
+                          "owners": ow, "outs": outs, "mode": md})
+    trecs, tfailed = mc.compile_jobs(chk, keep + extra, tag="truncjobs")
+    trecs, till = mc.typecheck(chk, trecs, tag="trunctypes")
+    chk.count("truncate_programs", len(trecs))
+    rs = list(trecs)
+    rounds = 0
+    tinv = "C02Trunc" if mode == "three" else "C01Trunc"
+    while rs and rounds < 6:
+        rounds += 1
+        ok, res, bad = mc.run_aby3(chk, rs, mode, 8, "trunc_%s" % mode, sample_runs=12 if tier == "quick" else 200, invariant=tinv,
+                                   timeout=1500 if tier == "quick" else 10000)
+        if ok:
+            break
+        if bad is None:
+            raise lib.ToolError("violation without program index:\n" + res.trace[:2000])
+        sig = dict(mc.describe(bad), ring=8, invariant=res.violated)
+        chk.violation(sig, {"job": {k: bad[k] for k in ("id", "name", "owners", "outs", "mode")},
+                            "x": mc.last_state(res.trace, "x"), "oracle": mc.last_state(res.trace, "orc"),
+                            "tlc": res.trace[-6000:], "mode": mode, "ring": 8})
+        rs = [r for r in rs if r is not bad]
     # --- real widths, real evaluator: the compiled graph executed by the harness as three separate parties (C02) and on
     # one store (C01); TLC (spec/Run3Trace.tla) judges the final condition of every run. Covers the protocols the TLA+
     # interpreter cannot run: conversions at 32-128 bits, comparisons / min / max, sort, permutations, joins.
